@@ -24,5 +24,6 @@ LIST=()
 for d in seeded/C*/; do n="$(basename "$d")"; LIST+=("$d/patch.diff $n ${n%%-*}"); done
 for p in selftest/mutants/C*.patch; do n="$(basename "$p" .patch)"; LIST+=("$p self-$n ${n%%_*}"); done
 if [ $# -gt 0 ]; then SEL=(); for x in "${LIST[@]}"; do for a in "$@"; do [[ "$x" == *" $a"* || "$x" == *"$a "* ]] && SEL+=("$x"); done; done; LIST=("${SEL[@]}"); fi
-printf '%s\n' "${LIST[@]}" | xargs -P 5 -L 1 bash -c 'one $0 $1 $2' | sort > seeded/RESULTS.tsv
-cat seeded/RESULTS.tsv
+OUTF=seeded/RESULTS.tsv; [ $# -gt 0 ] && OUTF=scratch/RESULTS.partial.tsv      # a filtered run never overwrites the full table
+printf '%s\n' "${LIST[@]}" | xargs -P 5 -L 1 bash -c 'one $0 $1 $2' | sort > "$OUTF"
+cat "$OUTF"
